@@ -232,7 +232,7 @@ func hostileSpace(thorough bool, fn func(idx int64, t *rm.Type, p *prim, le bool
 	}
 	// (d) per message type: seeds, truncations, substitutions, prefix extremes, unknown keys
 	for _, t := range bind.Types {
-		wireSpace(t, wireOpts{Dev: 1, DevBaseOnly: !thorough, Big: true, Dev2Base: thorough && encLen(valenum.Distinct(t)) <= 120}, func(w []byte, desc string) bool {
+		wireSpace(t, wireOpts{Dev: 1, Indel: true, DevBaseOnly: !thorough, Big: true, Dev2Base: thorough && encLen(valenum.Distinct(t)) <= 120}, func(w []byte, desc string) bool {
 			fn(idx, t, nil, false, w, desc)
 			idx++
 			return true
@@ -626,7 +626,7 @@ func superviseDecode(r *ev.Run, prop string, thorough bool) {
 	r.Transition(r.Evaluations)
 	r.Trace(r.Evaluations)
 	if prop == "C09" {
-		r.Rule = "every decoder (170 message types + 74 primitive instantiations x BE/LE) x {all byte strings of length <=2; every strict prefix of every V1 reference wire; seeds and their 1-byte substitutions; every count/length prefix set to each extreme value followed by 0..8 original bytes and by the full tail; unregistered discriminators spliced in; for 32/64-bit counts 1000/65536/65537 real elements followed by a count that claims more}; executed in 16 worker processes under RLIMIT_AS=8GiB with the case journalled before execution; oracle: the call returns (no panic, no process death), loop iterations <= 256+64*len(input) when the tick instrumentation is active"
+		r.Rule = "every decoder (170 message types + 74 primitive instantiations x BE/LE) x {all byte strings of length <=2; every strict prefix of every V1 reference wire; seeds and their 1-byte insertions, deletions and substitutions; every count/length prefix set to each extreme value followed by 0..8 original bytes and by the full tail; unregistered discriminators spliced in; for 32/64-bit counts 1000/65536/65537 real elements followed by a count that claims more}; executed in 16 worker processes under RLIMIT_AS=8GiB with the case journalled before execution; oracle: the call returns (no panic, no process death), loop iterations <= 256+64*len(input) when the tick instrumentation is active"
 	} else {
 		r.Rule = "same space as C09; oracle: runtime.MemStats.TotalAlloc delta around the single decode call <= 16384+64*len(input) bytes, worker survives RLIMIT_AS=8GiB; the budget is validated in the same run on every valid encoding of V1"
 	}
